@@ -61,6 +61,9 @@ def handleC08s (f : List String) : Res :=
       let r := if code == "H" then
           let r := cmp "halving-model" (match P.suggestHalving fl t with | none => "nil" | some l => showInts l) impl r
           cmp "translated-halving" (showO (AC.Gen.Program.heuristicHalvingSuggest fl t)) impl r
+        else if code == "A" then
+          let r := cmp "approximation-model" (match P.suggestApprox fl t with | none => "nil" | some l => showInts l) impl r
+          cmp "translated-approximation" (showO (AC.Gen.Program.heuristicApproximationSuggest fl t)) impl r
         else
           let last := fl.getLastD 0
           let r := cmp "deltalargest-model" (if t - last ≤ 0 then "panic" else showInts [t - last]) impl r
